@@ -51,16 +51,19 @@ CFG = {'streams': [{'name': 'C02',
              'proved: mutable scoped variables (lazy rejects them); eager positions or definition scopes that depend on scoped variables (the full '
              'statement is false for cyclic definitions, K7); inherited names when a definer has a defining proper ancestor in the final store '
              '(the proved side condition is stronger than "not defined on a nearer node AFTER being read": it also forbids shadowing definitions '
-             'made before the read); `(node)` calls inside expressions, where only isomorphism instead of equality can hold; an arbitrary '
-             'interleaving of the matches of different stanzas as the merged file query reports them (the theorems feed the lazy run the strict '
-             'matches stanza by stanza); debug attributes and cancellation budgets',
-             'strict_fail_lazy_fail (the failure direction) is proved only on the fragment WITHOUT scoped variables (strict_fail_lazy_fail_partial), '
-             'for root causes other than UndefinedEdge (order dependent) and Cancelled, with the lazy run fed the strict matches stanza by stanza, '
-             'no debug attributes, no cancellation budget; the conclusion is "lazy never returns Ok" (plus "returns Err unless the model runs out '
+             'made before the read); `(node)` calls inside expressions, where only isomorphism instead of equality can hold; debug attributes and cancellation '
+             'budgets. An ARBITRARY interleaving of the matches (the order in which the merged file query reports them) is covered by the '
+             'composition with the C08 theorems (strict_lazy_iso_any_order_partial, _scoped_partial, strict_lazy_iso_run_one_partial: graph '
+             'ISOMORPHIC to the strict graph, on the intersection of the C02 and C08 fragments: call_ok functions, i.e. also without format/join)',
+             'strict_fail_lazy_fail (the failure direction) is proved on the fragment without scoped variables (strict_fail_lazy_fail_partial) and on '
+             'the fragment WITH scoped variables under the static condition inh_static on inherited names (strict_fail_lazy_fail_scoped_partial; '
+             'two refutations show the side conditions are needed), for root causes other than UndefinedEdge (order dependent), Cancelled and - with '
+             'scoped variables - UndefinedVariable (order dependent when the definer comes later), in strict order and in any order of the blocks '
+             '(…_any_order_…), no debug attributes, no cancellation budget; the conclusion is "lazy never returns Ok" (plus "returns Err unless the model runs out '
              'of fuel" under the no-panic hypotheses): "lazy returns Err from some fuel on" is false in the model, because lazy execution goes on '
              'after the failure point and the statements it then runs may diverge (strict_fail_lazy_diverges_k2: a fragment program on which strict '
-             'fails at the first statement and lazy runs out of EVERY fuel in a recursive shorthand, K2). NOT proved: the failure direction '
-             'with scoped variables (explored by the direct stream)'],
+             'fails at the first statement and lazy runs out of EVERY fuel in a recursive shorthand, K2). NOT proved: an undefined UNSCOPED variable on the scoped '
+             'fragment (the model error does not distinguish it from the scoped case); definitions of inherited names whose scope is not a capture'],
  'assumptions': ['tree-sitter queries are an external: raw matches are recorded by calling QueryCursor::matches directly on the stanza queries and '
                  'on the merged file query',
                  'regex crate: modelled by Model/Regex.v on the generated sub-language (validated by stream C10rx); stdlib functions: Model/Stdlib.v '
